@@ -258,6 +258,14 @@ Definition truthy (d : dialect) (st : state) (v : value) : bool :=
   | VFunc _ | VBuiltin _ => true
   end.
 
+(* pyRange.Len() (objects.go, since /repo 3ce4752): the number of items Iter yields - none for an empty or descending
+   range or a non-positive step, rounded up when the step does not divide the span; Go int arithmetic (the sum wraps
+   around at 64 bits, / truncates).  Before 3ce4752 it was (Stop - Start) / Step: negative for a descending range
+   (interpretList panicked in makeslice) and short when the step does not divide the span.  Proof/C16_Sort.v ties it
+   to the body gotrans regenerates (Gen/C16Builtins.v). *)
+Definition range_len (a b c : Z) : Z :=
+  if (b <=? a) || (c <=? 0) then 0 else Z.quot (wrap64 (b - a + c - 1)) c.
+
 (* the items of a range: asp `for i := Start; i < Stop; i += Step`; CPython also counts down *)
 Fixpoint range_up (n : nat) (a c : Z) : list value :=
   match n with O => [] | S k => VInt a :: range_up k (a + c) c end.
